@@ -307,7 +307,9 @@ def scenario(ctx):
                                                           owner_allow(states, n), sorted(exp_codes)))
             states = succ
             got_acq = acquired_signals(new_by_peer[c], n)
-            if acq_expected and len(got_acq) != 1:
+            # (the reply code already tells the requester; the statement requires the signal
+            # only for promotions, so none is tolerated here, several are not)
+            if acq_expected and len(got_acq) > 1:
                 raise Violation('C13/name-acquired', 'new owner told %d times' % len(got_acq),
                                 'peer %d became owner of %s but received %d NameAcquired'
                                 % (c, n, len(got_acq)))
